@@ -31,7 +31,7 @@ func forksN() int {
 // TestC03Budget: one sync of the active replica set over a generated layout,
 // executed on several forks of the store (Go map order), judged by the budget monitor.
 func TestC03Budget(t *testing.T) {
-	rec := evid.New("TestC03Budget", "C03", "layout = 1-12 nodes each untargeted (untolerated taint) or targeted and in {no pod, up-to-date available/unavailable, outdated available (Ready transition in the past or stamped 2s ahead by a skewed kubelet clock)/unavailable/terminating (Ready or not, inside the grace period), up-to-date terminating, stuck unscheduled >10min, terminating past grace, adopted old-DaemonSet pod available/unavailable, one or two pods in phase Failed (the second is kept by the failed-pod back-off)}; the outdated template plain or with its own matchFields exclusion on the node name; both node-assignment modes x maxUnavailable x maxPodSchedulerFailure (int or percent), one active sync on several store forks; non-trivial = at least one outdated-available and one outdated-unavailable pod and fewer deletions allowed than candidates; distinct by layout+strategy rendering")
+	rec := evid.New("TestC03Budget", "C03", "layout = 1-12 nodes each untargeted (untolerated taint) or targeted and in {no pod, up-to-date available/unavailable, outdated available (Ready transition in the past or stamped 2s ahead by a skewed kubelet clock)/unavailable/terminating (Ready or not, inside the grace period), up-to-date terminating, stuck unscheduled >10min, terminating past grace, adopted old-DaemonSet pod available/unavailable (optionally with a namesake DaemonSet and its pods in another namespace), one or two pods in phase Failed (the second is kept by the failed-pod back-off)}; the outdated template plain or with its own matchFields exclusion on the node name; both node-assignment modes x maxUnavailable x maxPodSchedulerFailure (int or percent), one active sync on several store forks; non-trivial = at least one outdated-available and one outdated-unavailable pod and fewer deletions allowed than candidates; distinct by layout+strategy rendering")
 	t.Cleanup(func() {
 		if !t.Failed() {
 			rec.Done()
@@ -71,6 +71,15 @@ func TestC03Budget(t *testing.T) {
 		p := prepare(c, "ns1", "foo", st, ann, string(old)+"B")
 		if migration {
 			p.addOldDaemonSet()
+			// sometimes another namespace holds a DaemonSet of the same name with old pods on every node: not part of
+			// the migration, its pods must neither be touched nor make the ExtendedDaemonSet's own pods "duplicates"
+			if rapid.Bool().Draw(rt, "namesakeDaemonSetElsewhere") {
+				var all []string
+				for i := 0; i < n; i++ {
+					all = append(all, fmt.Sprintf("n%02d", i))
+				}
+				p.addNamesakeDaemonSet("ns3", all)
+			}
 		}
 		c.Advance(20 * time.Minute)
 		oldAvail, oldUnavail := 0, 0
